@@ -58,6 +58,7 @@ fn main() {
 }
 
 fn selfcheck() -> Result<(), String> {
+    util::selfcheck()?;
     wire::selfcheck()?;
     second::selfcheck()?;
     model::selfcheck()?;
